@@ -80,4 +80,29 @@ def pairSwapped : Hierarchy where
     { params := [0, 1], ownOrigBases := some [⟨1, some [.tv 1, .tv 0]⟩], bases := [⟨1, none⟩], mro := [2, 1, 0],
       ownAnn := [("tail", .tv 0)] }]
 
+def seqOf (t : Hint) : Hint := .app (.con "Sequence") t
+def mappingOf (k v : Hint) : Hint := .app (.app (.con "Mapping") k) v
+
+/-- ```
+    S = TypeVar("S", bound=Sequence[int])                       # an ABSTRACT collection type as bound
+    M = TypeVar("M", Mapping[str, int], Sequence[int])          # ... and as constraints
+    class Batch(Generic[S]):        items: S ; rows: List[S]
+    class NamedBatch(Batch):        name: str                    # the generic parent left bare in the list of bases
+    class Board(Generic[M, T]):     scores: M ; tag: T
+    class Deep(Batch[S], Generic[S]): pass                       # the bounded TypeVar threaded through ...
+    class Leaf(Deep):               pass                         # ... and left bare one level below
+    ```
+    `S = 0`, `M = 1`, `T = 2`. -/
+def boundedBatch : Hierarchy where
+  kind := .dataclass
+  tvars := [(0, ⟨[], some (seqOf intH)⟩), (1, ⟨[mappingOf strH intH, seqOf intH], none⟩), (2, ⟨[], none⟩)]
+  classes := [
+    { params := [0], ownOrigBases := some [], bases := [], mro := [0],
+      ownAnn := [("items", .tv 0), ("rows", listOf (.tv 0))] },
+    { params := [], ownOrigBases := none, bases := [⟨0, none⟩], mro := [1, 0], ownAnn := [("name", strH)] },
+    { params := [1, 2], ownOrigBases := some [], bases := [], mro := [2],
+      ownAnn := [("scores", .tv 1), ("tag", .tv 2)] },
+    { params := [0], ownOrigBases := some [⟨0, some [.tv 0]⟩], bases := [⟨0, none⟩], mro := [3, 0], ownAnn := [] },
+    { params := [], ownOrigBases := none, bases := [⟨3, none⟩], mro := [4, 3, 0], ownAnn := [] }]
+
 end Adaptix.Generic
